@@ -134,4 +134,104 @@ theorem argsort_perm (source : List κ) (trace : List (Nat × Nat)) (t : Tree κ
   rw [e2] at h2
   simpa [List.range_eq_range'] using h2
 
+theorem takeFirst_mem (s : κ) (pool : List (Nat × κ)) (i : Nat) (pool' : List (Nat × κ))
+    (h : takeFirst s pool = some (i, pool')) : (i, s) ∈ pool ∧ ∀ p ∈ pool', p ∈ pool := by
+  induction pool generalizing i pool' with
+  | nil => simp [takeFirst] at h
+  | cons p rest ih =>
+    obtain ⟨j, x⟩ := p
+    unfold takeFirst at h
+    by_cases hx : x = s
+    · simp only [hx, if_true, Option.some.injEq, Prod.mk.injEq] at h
+      obtain ⟨h1, h2⟩ := h
+      subst h1 h2 hx
+      exact ⟨List.mem_cons_self, fun p hp => List.mem_cons_of_mem _ hp⟩
+    · simp only [hx, if_false] at h
+      cases hr : takeFirst s rest with
+      | none => rw [hr] at h; simp at h
+      | some r =>
+        rw [hr] at h
+        simp only [Option.map_some, Option.some.injEq, Prod.mk.injEq] at h
+        obtain ⟨h1, h2⟩ := h
+        obtain ⟨m1, m2⟩ := ih r.1 r.2 (by rw [hr])
+        subst h1 h2
+        refine ⟨List.mem_cons_of_mem _ m1, ?_⟩
+        intro p hp
+        rcases List.mem_cons.mp hp with rfl | hp
+        · exact List.mem_cons_self
+        · exact List.mem_cons_of_mem _ (m2 p hp)
+
+/-- every assigned position carries the id it was assigned to: indexing the source with the result gives `ordered` -/
+theorem assign_points (source ordered : List κ) (pool : List (Nat × κ)) (res : List Nat)
+    (hpool : ∀ p ∈ pool, source[p.1]? = some p.2) (h : assign ordered pool = some res) :
+    res.map (source[·]?) = ordered.map some := by
+  induction ordered generalizing pool res with
+  | nil => simp [assign] at h; subst h; rfl
+  | cons s rest ih =>
+    unfold assign at h
+    cases ht : takeFirst s pool with
+    | none => rw [ht] at h; simp at h
+    | some r =>
+      obtain ⟨i, pool'⟩ := r
+      rw [ht] at h
+      simp only at h
+      cases ha : assign rest pool' with
+      | none => rw [ha] at h; simp at h
+      | some res' =>
+        rw [ha] at h
+        simp only [Option.map_some, Option.some.injEq] at h
+        subst h
+        obtain ⟨m1, m2⟩ := takeFirst_mem s pool i pool' ht
+        simp only [List.map_cons]
+        rw [hpool (i, s) m1, ih pool' res' (fun p hp => hpool p (m2 p hp)) ha]
+
+theorem enum_points (k : Nat) (pre xs : List κ) (hk : pre.length = k) :
+    ∀ p ∈ enum k xs, (pre ++ xs)[p.1]? = some p.2 := by
+  induction xs generalizing k pre with
+  | nil => intro p hp; simp [enum] at hp
+  | cons x xs ih =>
+    intro p hp
+    simp only [enum, List.mem_cons] at hp
+    rcases hp with rfl | hp
+    · simp [← hk]
+    · have := ih (k + 1) (pre ++ [x]) (by simp [hk]) p hp
+      simpa using this
+
+/-- **argsort, full statement**: for every merge trace that reduces the tagged leaves to one tree, the result is a
+permutation of `0..n-1` and indexing the input with it yields the in-order leaf sequence (nothing lost or duplicated). -/
+theorem argsort_spec (source : List κ) (trace : List (Nat × Nat)) (t : Tree κ)
+    (h : cluster trace (source.map Tree.leaf) = some [t]) :
+    ∃ res, findIndices source t.inorder = some res ∧ res.Perm (List.range source.length) ∧
+      res.map (source[·]?) = t.inorder.map some ∧ t.inorder.Perm source := by
+  obtain ⟨res, h1, h2⟩ := argsort_perm source trace t h
+  refine ⟨res, h1, h2, ?_, ?_⟩
+  · exact assign_points source t.inorder (enum 0 source) res (by simpa using enum_points 0 [] source rfl) h1
+  · have hl := cluster_leaves trace _ _ h
+    have hsrc : ∀ (l : List κ), leaves (l.map Tree.leaf) = l := by
+      intro l
+      unfold leaves
+      induction l with
+      | nil => rfl
+      | cons x xs ih => simp [Tree.inorder, ih]
+    have ht : leaves [t] = t.inorder := by simp [leaves]
+    rw [hsrc source, ht] at hl
+    exact hl
+
+/-- every successful clustering step removes exactly one node, so a trace ending in a single tree has `n - 1` steps -/
+theorem cluster_length (trace : List (Nat × Nat)) (nodes nodes' : List (Tree κ))
+    (h : cluster trace nodes = some nodes') : nodes'.length + trace.length = nodes.length := by
+  induction trace generalizing nodes with
+  | nil => simp [cluster] at h; subst h; simp
+  | cons p rest ih =>
+    obtain ⟨hi, lo⟩ := p
+    simp only [cluster] at h
+    cases hs : clusterStep nodes hi lo with
+    | none => simp [hs] at h
+    | some mid =>
+      simp only [hs, Option.bind_some] at h
+      have := ih mid h
+      have := (clusterStep_leaves nodes mid hi lo hs).2
+      simp only [List.length_cons]
+      omega
+
 end Hpv.Sorting
